@@ -59,6 +59,8 @@ func runC14(c *Ctx) {
 	filterStatusReportsCommandError(c, "R2")
 	delayedPointersSurviveRounds(c, "R4")
 	incomingPayloadWhole(c, "R1")
+	notAPointerIsNotAnError(c, "R1")
+	delayedPointerRememberedAsDecoded(c, "R4")
 	fc := p.Fn("commands", "filterCommand")
 	ds := p.Fn("commands", "delayedSmudge")
 	if fc == nil || ds == nil {
